@@ -535,6 +535,57 @@ func checkC03Pairing(c *Ctx, et interface{}) {
 		}
 	}
 	c.Min("R5", "capacity-guarded add sites", nCap, 2)
+	checkIsInPairing(c, "R7")
+}
+
+func creatorHasCapacityGuard(p *Prog, f *ssa.Function, ci ssa.CallInstruction) bool {
+	for _, b := range f.Blocks {
+		for _, in := range b.Instrs {
+			if iff, ok := in.(*ssa.If); ok {
+				s := p.Sym(iff.Cond).Strip()
+				if s.Kind == "binop" && (s.Name == ">" || s.Name == "<" || s.Name == ">=" || s.Name == "<=") {
+					l, r := s.Args[0].Strip(), s.Args[1].Strip()
+					if l.IsCall("len") && l.Args[0].Strip().IsField("TableSetting", "JoinPlayers") && r.IsField("TableMeta", "TableMaxSeatCount") && Dominates(iff, ci) {
+						return true
+					}
+				}
+			}
+		}
+	}
+	return false
+}
+
+// mustPass: every path from a to a function exit passes through b.
+func mustPass(a, b ssa.Instruction) bool {
+	if a.Parent() != b.Parent() {
+		return false
+	}
+	if a.Block() == b.Block() {
+		return instrIndex(a) < instrIndex(b)
+	}
+	seen := map[*ssa.BasicBlock]bool{}
+	st := append([]*ssa.BasicBlock{}, a.Block().Succs...)
+	for len(st) > 0 {
+		x := st[len(st)-1]
+		st = st[:len(st)-1]
+		if seen[x] || x == b.Block() {
+			continue
+		}
+		seen[x] = true
+		if len(x.Succs) == 0 {
+			if _, isRet := x.Instrs[len(x.Instrs)-1].(*ssa.Return); isRet {
+				return false
+			}
+		}
+		st = append(st, x.Succs...)
+	}
+	return true
+}
+
+// checkIsInPairing (C03.R7 / C05.R8): IsIn=true and SeatManager.JoinPlayers([same id])
+// on the same paths of the same function.
+func checkIsInPairing(c *Ctx, rule string) {
+	p := c.P
 	// R7
 	n7 := 0
 	for _, ss := range p.FieldStores("TablePlayerState", "IsIn") {
@@ -591,51 +642,7 @@ func checkC03Pairing(c *Ctx, et interface{}) {
 				ok = true
 			}
 		}
-		c.Check(ok, "R7", FuncName(f)+":IsIn↔JoinPlayers", p.InstrPos(ss.Instr), "seated-in flag paired with the seat manager's", d)
+		c.Check(ok, rule, FuncName(f)+":IsIn↔JoinPlayers", p.InstrPos(ss.Instr), "seated-in flag paired with the seat manager's", d)
 	}
-	c.Min("R7", "IsIn=true stores", n7, 1)
-}
-
-func creatorHasCapacityGuard(p *Prog, f *ssa.Function, ci ssa.CallInstruction) bool {
-	for _, b := range f.Blocks {
-		for _, in := range b.Instrs {
-			if iff, ok := in.(*ssa.If); ok {
-				s := p.Sym(iff.Cond).Strip()
-				if s.Kind == "binop" && (s.Name == ">" || s.Name == "<" || s.Name == ">=" || s.Name == "<=") {
-					l, r := s.Args[0].Strip(), s.Args[1].Strip()
-					if l.IsCall("len") && l.Args[0].Strip().IsField("TableSetting", "JoinPlayers") && r.IsField("TableMeta", "TableMaxSeatCount") && Dominates(iff, ci) {
-						return true
-					}
-				}
-			}
-		}
-	}
-	return false
-}
-
-// mustPass: every path from a to a function exit passes through b.
-func mustPass(a, b ssa.Instruction) bool {
-	if a.Parent() != b.Parent() {
-		return false
-	}
-	if a.Block() == b.Block() {
-		return instrIndex(a) < instrIndex(b)
-	}
-	seen := map[*ssa.BasicBlock]bool{}
-	st := append([]*ssa.BasicBlock{}, a.Block().Succs...)
-	for len(st) > 0 {
-		x := st[len(st)-1]
-		st = st[:len(st)-1]
-		if seen[x] || x == b.Block() {
-			continue
-		}
-		seen[x] = true
-		if len(x.Succs) == 0 {
-			if _, isRet := x.Instrs[len(x.Instrs)-1].(*ssa.Return); isRet {
-				return false
-			}
-		}
-		st = append(st, x.Succs...)
-	}
-	return true
+	c.Min(rule, "IsIn=true stores", n7, 1)
 }
